@@ -285,7 +285,8 @@ def run_edit_case(version, form, case_seed, tmp):
     for clause, where, observed, expected in rt_fails:
         tsv_unmerged = where.get("save_merged") is False and (where.get("format") == "tsv" or "tsv" in where.get("formats", []))
         wiki_merged = where.get("save_merged") is True and (where.get("format") == "mediawiki" or "mediawiki" in where.get("formats", []))
-        if lib_unit_in_std_class and tsv_unmerged and clause in ("C05.rt.tsv_equal", "C05.cross.formats_agree"):
+        if lib_unit_in_std_class and tsv_unmerged and clause in ("C05.rt.tsv_equal", "C05.cross.formats_agree",
+                                                                   "C05.tsv.dataframes_in_memory"):
             clause = "C05.tsv.unmerged_library_unit_in_standard_class"
         elif rooted_plain and wiki_merged and clause in ("C05.rt.wiki_equal", "C05.cross.formats_agree", "C05.rt.entry_points_agree"):
             clause = "C05.wiki.merged_rooted_below_plain_root"
